@@ -15,6 +15,7 @@ import TonVerif.Proofs.Codec
 import TonVerif.Spec.Tlb.Block
 import TonVerif.Proofs.SrcTlbParsers
 import TonVerif.Proofs.SrcTlbParsersTx
+import TonVerif.Proofs.SrcTlbParsersBlk
 
 namespace TonVerif.Tlb
 open TonVerif
@@ -1526,5 +1527,209 @@ example : ∃ f, (transactionF 1).enc Tx.exampleTransaction = some f ∧
   have h2 : Tx.exampleTransaction.noVar = true := by decide +kernel
   obtain ⟨f, hf⟩ := Option.isSome_iff_exists.1 h1
   exact ⟨f, hf, fun k => c16_src_Transaction 1 Tx.exampleTransaction f hf h2 k⟩
+
+/-! ## BEGIN tlbsrc2 — Source tie, third part: account.py / block.py / config.py classes (`c16_src_*`, continued)
+
+`SrcBlk.<Class>` (Generated/TlbParsersBlk.lean) is regenerated on every run by harness/translate/tlbparsers_blk.py; `ConsensusConfig` and
+`BlockInfo` are in Generated/TlbParsers.lean (first part; the translator now reads constant tables `{b'\xd6': 'consensus_config', …}` and
+turns an `if` that only assigns into ONE conditional `let`).  Declared views: Spec/Tlb/PyViewBlk.lean (namespace `Blk`).  Same statement as
+above: on the spec encoding of ANY value followed by ANY trailer the parser of the working tree returns every field with its encoded
+value and leaves exactly the trailer; `v.noVar = true` where the type contains a `MsgAddressInt` (`load_address` has no `addr_var`). -/
+
+/-- `ConsensusConfig.deserialize` (all four constructors `#d6 … #d9`: tag looked up in the constant table, `flags = 0` and
+    `round_candidates >= 1` asserted, `proto_version` / `catchain_max_blocks_coeff` only where the layout has them, `None` otherwise),
+    regenerated from the source: on the spec encoding of ANY value followed by ANY trailer it returns every field with its encoded
+    value (view `Blk.view_ConsensusConfig`) and consumes exactly the encoded bits. -/
+theorem c16_src_ConsensusConfig (v : Val) (f : Frag) (he : consensusConfig.enc v = some f) (k : Frag) :
+    Src.ConsensusConfig false (f ++ k) = some (Blk.view_ConsensusConfig v, k) :=
+  Blk.refines_ConsensusConfig.on_encoding v f he k
+
+/-- `BlockInfo.deserialize` + `BlockInfo.__init__` (tag, 20 inline fields, `flags . 0?GlobalVersion`, `not_master?^BlkMasterInfo`,
+    `prev_ref:^(BlkPrevInfo after_merge)`, `vert_seqno_incr?^(BlkPrevInfo 0)`; `flags <= 1` and `vert_seq_no >= vert_seqno_incr` checked),
+    regenerated from the source: on the spec encoding of ANY value followed by ANY trailer it returns every attribute with its encoded
+    value (view `Blk.view_BlockInfo`; absent conditional fields are `None`) and consumes exactly the encoded bits and refs. -/
+theorem c16_src_BlockInfo (v : Val) (f : Frag) (he : blockInfo.enc v = some f) (k : Frag) :
+    Src.BlockInfo false (f ++ k) = some (Blk.view_BlockInfo v, k) :=
+  Blk.refines_BlockInfo.on_encoding v f he k
+
+/-- `DepthBalanceInfo.deserialize`, regenerated from the source: every field, exact consumption. -/
+theorem c16_src_DepthBalanceInfo (v : Val) (f : Frag) (he : depthBalanceInfo.enc v = some f) (k : Frag) :
+    SrcBlk.DepthBalanceInfo false (f ++ k) = some (Blk.view_DepthBalanceInfo v, k) :=
+  Blk.refines_DepthBalanceInfo.on_encoding v f he k
+
+/-- `ValueFlow.deserialize` (both tags `#b8e48dfb` and `#3ebf98b7`: the two `^[ … ]` groups of four CurrencyCollections each — with their
+    extra-currency dictionaries — read from their own reference cells, `fees_collected` (and `burned`) inline in between),
+    regenerated from the source: every field with its encoded value, exactly the encoded bits and refs consumed. -/
+theorem c16_src_ValueFlow (v : Val) (f : Frag) (he : valueFlow.enc v = some f) (k : Frag) :
+    SrcBlk.ValueFlow false (f ++ k) = some (Blk.view_ValueFlow v, k) :=
+  Blk.refines_ValueFlow.on_encoding v f he k
+
+/-- `ShardDescr.deserialize` (both tags `#b` inline fees and `#a` fees in a `^[ … ]` group; `flags = 0` checked; `split_merge_at` through
+    the regenerated `FutureSplitMerge`), regenerated from the source: every field, exact consumption. -/
+theorem c16_src_ShardDescr (v : Val) (f : Frag) (he : shardDescr.enc v = some f) (k : Frag) :
+    SrcBlk.ShardDescr false (f ++ k) = some (Blk.view_ShardDescr v, k) :=
+  Blk.refines_ShardDescr.on_encoding v f he k
+
+/-- `AccountStorage.deserialize` (`last_trans_lt`, balance with its extra-currency dictionary, `AccountState`), regenerated from the source. -/
+theorem c16_src_AccountStorage (v : Val) (f : Frag) (he : accountStorage.enc v = some f) (k : Frag) :
+    SrcBlk.AccountStorage false (f ++ k) = some (Blk.view_AccountStorage v, k) :=
+  Blk.refines_AccountStorage.on_encoding v f he k
+
+/-- `Account.deserialize` (`account_none$0` ↦ `None`; `account$1`: address through `load_address`, `StorageInfo`, `AccountStorage`),
+    regenerated from the source; `noVar`: the address is not `addr_var`. -/
+theorem c16_src_Account (v : Val) (f : Frag) (he : account.enc v = some f) (hv : v.noVar = true) (k : Frag) :
+    SrcBlk.Account false (f ++ k) = some (Blk.view_Account v, k) :=
+  Blk.refines_Account.on_encoding v f he hv k
+
+/-- `ShardAccount.deserialize` (`account:^Account` parsed from its own cell, `last_trans_hash`, `last_trans_lt`), regenerated from the
+    source; the bookkeeping argument `cell=` (a copy of the slice) is not part of the statement. -/
+theorem c16_src_ShardAccount (v : Val) (f : Frag) (he : shardAccount.enc v = some f) (hv : v.noVar = true) (k : Frag) :
+    SrcBlk.ShardAccount false (f ++ k) = some (Blk.view_ShardAccount v, k) :=
+  Blk.refines_ShardAccount.on_encoding v f he hv k
+
+/-- `ValidatorSet.deserialize` (`validators#11`: inline `Hashmap 16 ValidatorDescr` read by `load_hashmap`; `validators_ext#12`:
+    `total_weight` and a `HashmapE 16 ValidatorDescr` read by `load_dict`; `main <= total`, `main >= 1` checked), regenerated from the
+    source: every field with its encoded value, `list` = the dict position ↦ ValidatorDescr of the decoded Patricia tree in key order
+    (`None` for an empty `HashmapE`), exactly the encoded bits and refs consumed.  The dictionary walk is the hand model
+    `Rd.dictWalk` / `Rd.dictWalkInline` proved sound against the spec tree (`c16_model_dict_walk`, `c16_model_dict_walk_inline`). -/
+theorem c16_src_ValidatorSet (v : Val) (f : Frag) (he : validatorSet.enc v = some f) (k : Frag) :
+    SrcBlk.ValidatorSet false (f ++ k) = some (Blk.view_ValidatorSet v, k) :=
+  Blk.refines_ValidatorSet.on_encoding v f he k
+
+/-- the hand model of `Slice.load_hashmap` (`Rd.dictWalkInline`: the Patricia walk started on the slice itself) returns the entries of
+    ANY decoded inline `Hashmap n X` value, in order, and leaves exactly what the spec decoder leaves, given a value reader that
+    refines `X`. -/
+theorem c16_model_dict_walk_inline (X : Codec) (rd : Frag → Rd.R) (w : Val → Val) (hrd : Refines rd X w) (n : Nat) (s : Frag)
+    (tv : Val) (s' : Frag) (h : (hashmap n X).dec s = some (tv, s')) :
+    Rd.dictWalkInline rd n s = some (flattenF w (n + 1) n [] tv, s') :=
+  Blk.dictWalkInline_sound X rd w hrd n s tv s' h
+
+/-- `ShardAccounts.deserialize` = `load_hashmap_aug_e(256, ShardAccount.deserialize, DepthBalanceInfo.deserialize)`, regenerated from the
+    source: on the spec encoding of ANY `HashmapAugE 256 ShardAccount DepthBalanceInfo` value (no `addr_var` inside) followed by ANY trailer
+    it returns the tuple (dict key ↦ ShardAccount of the decoded Patricia tree in key order, list of the `extra:DepthBalanceInfo` of every
+    node, children before their fork) — `({}, [extra])` for an empty dictionary — and consumes exactly the encoding, the top-level
+    `extra` included.  The walk is the hand model `Rd.augWalk` proved sound against the spec tree (`c16_model_aug_walk`). -/
+theorem c16_src_ShardAccounts (v : Val) (f : Frag) (he : shardAccounts.enc v = some f) (hv : v.noVar = true) (k : Frag) :
+    SrcBlk.ShardAccounts false (f ++ k) = some (Blk.view_ShardAccounts v, k) :=
+  Blk.refines_ShardAccounts.on_encoding v f he hv k
+
+/-- `OldMcBlocksInfo.deserialize` = `load_hashmap_aug_e(32, KeyExtBlkRef.deserialize, KeyMaxLt.deserialize)`, regenerated from the source:
+    the `(dict, extras)` tuple of the decoded `HashmapAugE 32 KeyExtBlkRef KeyMaxLt`, exact consumption. -/
+theorem c16_src_OldMcBlocksInfo (v : Val) (f : Frag) (he : oldMcBlocksInfo.enc v = some f) (k : Frag) :
+    SrcBlk.OldMcBlocksInfo false (f ++ k) = some (Blk.view_OldMcBlocksInfo v, k) :=
+  Blk.refines_OldMcBlocksInfo.on_encoding v f he k
+
+/-- `BlockCreateStats.deserialize` (`block_create_stats#17`: `load_dict(256, CreatorStats.deserialize)`; `block_create_stats_ext#34`:
+    `load_hashmap_aug_e(256, CreatorStats.deserialize, load_uint(32))`), regenerated from the source: every field, exact consumption. -/
+theorem c16_src_BlockCreateStats (v : Val) (f : Frag) (he : blockCreateStats.enc v = some f) (k : Frag) :
+    SrcBlk.BlockCreateStats false (f ++ k) = some (Blk.view_BlockCreateStats v, k) :=
+  Blk.refines_BlockCreateStats.on_encoding v f he k
+
+/-- `ConfigParams.deserialize` (`config_addr`, then `config:^(Hashmap 32 ^Cell)` read by `load_hashmap` on the referenced cell with signed
+    32-bit keys and a Slice over each parameter's cell as value), regenerated from the source: every field, exact consumption. -/
+theorem c16_src_ConfigParams (v : Val) (f : Frag) (he : configParams.enc v = some f) (k : Frag) :
+    SrcBlk.ConfigParams false (f ++ k) = some (Blk.view_ConfigParams v, k) :=
+  Blk.refines_ConfigParams.on_encoding v f he k
+
+/-- `McStateExtra.deserialize` (tag `#cc26`, shard hashes — `deserialize_shard_hashes`, a pinned hand model proved against
+    `HashmapE 32 ^(BinTree ShardDescr)` with the REGENERATED `ShardDescr` parser on the leaves —, `ConfigParams`, the `^[ … ]` group:
+    `flags <= 1` checked, `ValidatorInfo`, `OldMcBlocksInfo`, `after_key_block`, `last_key_block:(Maybe ExtBlkRef)`,
+    `block_create_stats` iff `flags . 0`; `global_balance`), regenerated from the source: every field with its encoded value, exactly
+    the encoded bits and refs consumed. -/
+theorem c16_src_McStateExtra (v : Val) (f : Frag) (he : mcStateExtra.enc v = some f) (k : Frag) :
+    SrcBlk.McStateExtra false (f ++ k) = some (Blk.view_McStateExtra v, k) :=
+  Blk.refines_McStateExtra.on_encoding v f he k
+
+/-- `ShardStateUnsplit.deserialize` (`shard_state#9023afe2`: the nine inline fields, `out_msg_queue_info` kept as a cell,
+    `accounts:^ShardAccounts` through the regenerated `ShardAccounts`, the `^[ … ]` group read only when that cell is ordinary —
+    `overload_history … libraries master_ref` —, `custom:(Maybe ^McStateExtra)` through the regenerated `McStateExtra`), regenerated from
+    the source: every field with its encoded value, exactly the encoded bits and refs consumed.  Declared: the values of `libraries`
+    (`load_dict(256)` without a value_deserializer) are raw Slices, compared by presence only. -/
+theorem c16_src_ShardStateUnsplit (v : Val) (f : Frag) (he : shardStateUnsplit.enc v = some f) (hv : v.noVar = true) (k : Frag) :
+    SrcBlk.ShardStateUnsplit false (f ++ k) = some (Blk.view_ShardStateUnsplit v, k) :=
+  Blk.refines_ShardStateUnsplit.on_encoding v f he hv k
+
+/-- `ShardState.deserialize` (`preload_bytes(4)` dispatch: `split_state#5f327da5` ↦ two `^ShardStateUnsplit`; otherwise the slice is an
+    unsplit state, parsed with its own tag), regenerated from the source: every field, exact consumption. -/
+theorem c16_src_ShardState (v : Val) (f : Frag) (he : shardState.enc v = some f) (hv : v.noVar = true) (k : Frag) :
+    SrcBlk.ShardState false (f ++ k) = some (Blk.view_ShardState v, k) :=
+  Blk.refines_ShardState.on_encoding v f he hv k
+
+/-- `McBlockExtra.deserialize` (`masterchain_block_extra#cca5`: `key_block`, shard hashes, ShardFees = `load_maybe_ref()` + the two
+    CurrencyCollections of its top-level extra, the `^[ … ]` group — `prev_blk_signatures` read without a value_deserializer, the two
+    `Maybe ^InMsg` kept as cells —, `config` iff `key_block`), regenerated from the source: every field with its encoded value,
+    exactly the encoded bits and refs consumed.  Declared: `shard_fees` (the root cell of a dictionary the parser does not walk) and the
+    raw Slices of `prev_blk_signatures` are compared by presence only. -/
+theorem c16_src_McBlockExtra (v : Val) (f : Frag) (he : mcBlockExtra.enc v = some f) (k : Frag) :
+    SrcBlk.McBlockExtra false (f ++ k) = some (Blk.view_McBlockExtra v, k) :=
+  Blk.refines_McBlockExtra.on_encoding v f he k
+
+/-- `AccountBlock.deserialize` (`acc_trans#5`: `account_addr`, `transactions` = `load_hashmap_aug(64, Transaction by reference,
+    CurrencyCollection)` — the `(dict, extras)` tuple of the inline `HashmapAug 64 ^Transaction CurrencyCollection`, every Transaction through the
+    regenerated `Transaction` parser —, `state_update:^HashUpdate`), regenerated from the source: every field, exact consumption. -/
+theorem c16_src_AccountBlock (v : Val) (f : Frag) (he : accountBlock.enc v = some f) (hv : v.noVar = true) (k : Frag) :
+    SrcBlk.AccountBlock false (f ++ k) = some (Blk.view_AccountBlock v, k) :=
+  Blk.refines_AccountBlock.on_encoding v f he hv k
+
+/-- `BlockExtra.deserialize` (`block_extra#4a33f6fd`: `in_msg_descr`, `out_msg_descr`, `account_blocks` — each a `HashmapAugE 256 …` behind a
+    reference, read by `load_hashmap_aug_e` with the regenerated `InMsg` / `OutMsg` / `AccountBlock` parsers on the leaves —, `rand_seed`,
+    `created_by`, `custom:(Maybe ^McBlockExtra)`), regenerated from the source: every field, exact consumption. -/
+theorem c16_src_BlockExtra (v : Val) (f : Frag) (he : blockExtra.enc v = some f) (hv : v.noVar = true) (k : Frag) :
+    SrcBlk.BlockExtra false (f ++ k) = some (Blk.view_BlockExtra v, k) :=
+  Blk.refines_BlockExtra.on_encoding v f he hv k
+
+/-- `Block.deserialize` (`block#11ef55aa`: `global_id`, `info:^BlockInfo`, `value_flow:^ValueFlow`, `state_update`, `extra:^BlockExtra`, each
+    through its regenerated parser), regenerated from the source: every field, exact consumption.  `MerkleUpdate.deserialize` (text
+    pinned) is modelled for an ORDINARY `state_update` cell only (it returns `None`; hypothesis `ordinaryStateUpdate`): a real Merkle
+    update (exotic cell, two nested shard states) is outside the model — the bundled main-net block is covered by the first two layers. -/
+theorem c16_src_Block (v : Val) (f : Frag) (he : block.enc v = some f) (hv : v.noVar = true)
+    (ho : Blk.ordinaryStateUpdate v = true) (k : Frag) :
+    SrcBlk.Block false (f ++ k) = some (Blk.view_Block v, k) :=
+  Blk.refines_Block.on_encoding v f he ⟨hv, ho⟩ k
+
+/-- non-vacuity of `ordinaryStateUpdate`: an ordinary cell satisfies it, an exotic one does not -/
+example : Blk.ordinaryStateUpdate (.record [("state_update", .cell (Cell.mk false [true] []))]) = true ∧
+    Blk.ordinaryStateUpdate (.record [("state_update", .cell (Cell.mk true [true] []))]) = false := by
+  constructor <;> decide +kernel
+
+/-- the hand model of `deserialize_shard_hashes` + `BinTree.deserialize` (`Rd.loadShardHashes`; source text pinned by the translator)
+    against `HashmapE 32 ^(BinTree X)`: `None` / the dict of BinTree objects whose `.list` holds the leaves left to right, each parsed by
+    a leaf reader that agrees with `X`; exact consumption. -/
+theorem c16_model_shard_hashes (X : Codec) (leaf : Bool → Frag → Rd.R) (w : Val → Val)
+    (hleaf : ∀ s v s', X.dec s = some (v, s') → ∃ k, leaf false s = some (w v, k))
+    (v : Val) (f : Frag) (he : (hashmapE 32 (ref (binTree X))).enc v = some f) [Lawful X] (k : Frag) :
+    Rd.loadShardHashes leaf (f ++ k) = some (viewDict (Blk.viewBinTree w) 32 v, k) :=
+  ((Blk.shardHashesK (X := X) (leaf := leaf) (w := w) (fun s v s' hd _ => hleaf s v s' hd) _ _ _).1
+    (Lawful.law v f he k)).2
+
+/-- the hand model of `parse_aug` (boc/hashmap/parse.py; `Rd.augWalk`) returns the entries (left to right) and the extras (children
+    before their fork) of ANY decoded `HashmapAug n X Y` tree value, given a value reader that agrees with `X` and an extra reader
+    that refines `Y` (exact rest: the leaf reads `extra` and then `value` from the same cell). -/
+theorem c16_model_aug_walk (X Y : Codec) (x y : Frag → Rd.R) (wx wy : Val → Val)
+    (hx : ∀ s v, X.dec s = some (v, ⟨[], []⟩) → ∃ k, x s = some (wx v, k)) (hy : Refines y Y wy)
+    (n : Nat) (b : Bits) (r : List Cell) (tv : Val) (h : (hashmapAug n X Y).dec ⟨b, r⟩ = some (tv, ⟨[], []⟩)) :
+    Rd.augWalk x y (n + 1) n [] (Cell.mk false b r) = some (Blk.flattenAug wx (n + 1) n [] tv, Blk.extrasAug wy (n + 1) n tv) :=
+  Blk.augWalk_sound X Y (fun _ => True) x y wx wy (fun s v hd _ => hx s v hd) hy (n + 1) n [] b r tv h (fun _ _ => trivial)
+
+/-- non-vacuity: an empty `OldMcBlocksInfo` (`ahme_empty$0` + `extra:KeyMaxLt`) is encodable, so `c16_src_OldMcBlocksInfo` applies:
+    the regenerated parser returns `({}, [KeyMaxLt(False, 5)])` on its encoding, whatever follows -/
+example : ∃ f, oldMcBlocksInfo.enc (.con "ahme_empty" (.record [("extra", .record [("key", .bool false), ("max_end_lt", .int 5)])])) = some f ∧
+    ∀ k, SrcBlk.OldMcBlocksInfo false (f ++ k) =
+      some (Rd.tuple [Rd.dict [], Rd.list [Rd.obj "KeyMaxLt" [("key", .bool false), ("max_end_lt", .int 5)]]], k) := by
+  have h1 : (oldMcBlocksInfo.enc (.con "ahme_empty" (.record [("extra", .record [("key", .bool false), ("max_end_lt", .int 5)])]))).isSome
+      = true := by decide +kernel
+  obtain ⟨f, hf⟩ := Option.isSome_iff_exists.1 h1
+  exact ⟨f, hf, fun k => c16_src_OldMcBlocksInfo _ f hf k⟩
+
+/-- non-vacuity: `account_none$0` followed by a trailer bit is read as `None`, the trailer is left -/
+example : SrcBlk.Account false ⟨[false, true], []⟩ = some (.unit, ⟨[true], []⟩) := rfl
+
+/-- non-vacuity: a concrete `consensus_config_new#d7` value is encodable (so `c16_src_ConsensusConfig` applies to it) -/
+example : (consensusConfig.enc (.con "consensus_config_new" (.record [("flags", .int 0), ("new_catchain_ids", .bool true),
+    ("round_candidates", .int 3), ("next_candidate_delay_ms", .int 2000), ("consensus_timeout_ms", .int 16000),
+    ("fast_attempts", .int 3), ("attempt_duration", .int 8), ("catchain_max_deps", .int 4), ("max_block_bytes", .int 2097152),
+    ("max_collated_bytes", .int 2097152)]))).isSome = true := by decide +kernel
+
+/-! ## END tlbsrc2 -/
 
 end TonVerif.Tlb
